@@ -805,6 +805,18 @@ def _cond_build(c: t.Tuple[t.Any, ...]) -> t.Any:
         return A.Condition(_even, name='even')
     if k == 'raises':
         return A.Condition(_raiser, name='raiser')
+    if k == 'all':
+        return A.Condition.all(*(_cond_build(x) for x in c[1]))
+    if k == 'any':
+        return A.Condition.any(*(_cond_build(x) for x in c[1]))
+    if k == 'shape':
+        return A.shape(list(c[1]) if c[2] == 'list' else tuple(c[1]))
+    if k == 'bcast':
+        return A.broadcastable(tuple(c[1]))
+    if k == 'user_gt':
+        return A.Condition(_UserGt(c[1]), name=f'greater than {c[1]}')
+    if k == 'raises_if':
+        return A.Condition(_RaisesIf(c[1]), name=f'raises at {c[1]}')
     if k == 'and':
         return _cond_build(c[1]) & _cond_build(c[2])
     if k == 'or':
@@ -816,6 +828,34 @@ def _cond_build(c: t.Tuple[t.Any, ...]) -> t.Any:
 
 def _even(v):
     return v % 2 == 0
+
+
+class _UserGt:
+    def __init__(self, k):
+        self.k = k
+        self.__name__ = f'user_gt_{k}'
+
+    def __call__(self, v):
+        return v > self.k
+
+
+class _RaisesIf:
+    def __init__(self, k):
+        self.k = k
+        self.__name__ = f'raises_if_{k}'
+
+    def __call__(self, v):
+        if v == self.k:
+            raise PredicateBoom(f"tok_predicate_boom_{self.k}")
+        return True
+
+
+def _bcast_ref(a: t.Sequence[int], b: t.Sequence[int]) -> bool:
+    """Reference broadcasting rule (independent of numpy and of pane.util)."""
+    for (x, y) in zip(reversed(tuple(a)), reversed(tuple(b))):
+        if x != y and x != 1 and y != 1:
+            return False
+    return True
 
 
 class PredicateBoom(Exception):
@@ -861,6 +901,20 @@ def cond_eval(c: t.Tuple[t.Any, ...], x: t.Any) -> bool:
         return x % 2 == 0
     if k == 'raises':
         raise PredicateBoom()
+    if k == 'all':
+        return all(cond_eval(y, x) for y in c[1])
+    if k == 'any':
+        return any(cond_eval(y, x) for y in c[1])
+    if k == 'shape':
+        return tuple(x.shape) == tuple(c[1])
+    if k == 'bcast':
+        return _bcast_ref(x.shape, c[1])
+    if k == 'user_gt':
+        return bool(x > c[1])
+    if k == 'raises_if':
+        if x == c[1]:
+            raise PredicateBoom()
+        return True
     if k == 'and':
         return cond_eval(c[1], x) and cond_eval(c[2], x)
     if k == 'or':
@@ -874,6 +928,12 @@ def cond_render(c) -> str:
     k = c[0]
     if k in ('val_range', 'len_range'):
         return f"{k}(min={c[1]!r}, max={c[2]!r})"
+    if k in ('all', 'any'):
+        return f"Condition.{k}({', '.join(cond_render(x) for x in c[1])})"
+    if k in ('shape', 'bcast'):
+        return f"{'shape' if k == 'shape' else 'broadcastable'}({list(c[1]) if k == 'shape' and c[2] == 'list' else tuple(c[1])})"
+    if k in ('user_gt', 'raises_if'):
+        return f"{k}({c[1]})"
     if k in ('and', 'or'):
         return f"({cond_render(c[1])} {'&' if k == 'and' else '|'} {cond_render(c[2])})"
     if k == 'not':
